@@ -23,6 +23,10 @@ def identity_member(desc, tier, seed):
     wit = ['graph-api', 'copy']
     nt = (desc.label,)
     h0, f0 = hash(g), g.fingerprint()
+    try:
+        snapshot = pickle.dumps(g)
+    except Exception:  # noqa
+        snapshot = None
     c = g.copy()
     ctx.check('C18.copy-equal', c == g and g == c, wit, 'copy is not equal to the original', nt)
     ctx.check('C18.copy-same-hash', hash(c) == hash(g), wit, 'copy has another hash', nt)
@@ -188,6 +192,25 @@ def identity_member(desc, tier, seed):
                   ['graph-api', 'gml'], f'GML has {txt.count("node [")} nodes / {txt.count("edge [")} edges for {len(g.graph.nodes)} / {len(g.graph.edges)}', (desc.label, 'gml'))
     except Exception as e:  # noqa
         ctx.check('C18.gml-export-total', False, ['graph-api', 'gml'], f'{type(e).__name__}: {e}', (desc.label, 'gml'))
+    # identity is a property of the graph value, not of what happened to other graphs in the meantime: after all of
+    # the above (copies edited, processors built, vectors decoded) and after deriving a graph per offered option, the
+    # untouched graph still has its hash / fingerprint, and a snapshot pickled before is still the same design space
+    try:
+        for cn in list(g.get_ordered_next_choice_nodes()):
+            if isinstance(cn, SelectionChoiceNode):
+                for o in g.get_option_nodes(cn):
+                    g.get_for_apply_selection_choice(cn, o)
+    except Exception:  # noqa
+        pass
+    try:
+        snap = pickle.loads(snapshot) if snapshot is not None else None
+        ok = hash(g) == h0 and g.fingerprint() == f0 and (snap is None or (snap.is_same(g) and g.is_same(snap)))
+        ctx.check('C18.identity-unchanged-by-deriving-and-decoding', ok, ['graph-api', 'later'],
+                  f'after deriving graphs and decoding vectors the untouched graph has hash {hash(g) == h0} / fingerprint '
+                  f'{g.fingerprint() == f0} equal to before; snapshot pickled before is_same: {None if snap is None else snap.is_same(g)}',
+                  (desc.label, 'later'))
+    except Exception as e:  # noqa
+        ctx.check('C18.identity-unchanged-by-deriving-and-decoding', False, ['graph-api', 'later'], f'{type(e).__name__}: {e}', (desc.label, 'later'))
     ctx.samples.append(dict(desc=desc.label, edits=[n for n, _ in edits]))
     return ctx.result()
 
